@@ -24,7 +24,8 @@ class Run:
         from netqasm.lang.parsing.text import parse_text_subroutine
         hc.reset_globals()
         self.sc = scenario
-        self.stack = hc.RecordingStack()
+        self.purpose_map: Dict[tuple, int] = {}
+        self.stack = hc.RecordingStack(purpose_of=lambda remote, socket: self.purpose_map.get((remote, socket), socket))
         self.ex = hc.MonitoredExecutor(name="node", node_id=0, step_limit=5000)
         self.ex.network_stack = self.stack
         self.subs = []
@@ -42,6 +43,10 @@ class Run:
             self.changed.append(True)
             self.app_requests[a["app"]] = [r for r in scenario["requests"] if r["app"] == a["app"]]
             self.next_req[a["app"]] = 0
+        self.stopped: set = set()
+        self.stops = 0
+        self.final_arrays: Dict[int, dict] = {}
+        self.final_units: Dict[int, list] = {}
         self.rlink = RLink()
         self.issued_pairs: Dict[tuple, int] = {}
         self.delivered: Dict[int, int] = {i: 0 for i in range(len(scenario["streams"]))}
@@ -76,19 +81,29 @@ class Run:
     def choices(self) -> List[tuple]:
         out = []
         for i, st in enumerate(self.state):
+            after = self.sc["apps"][i].get("after")
+            if after is not None and after not in self.stopped:
+                continue                      # this application is started by its host only after that one was closed
             if st == "ready" or (st == "blocked" and self.changed[i]):
                 out.append(("step", i))
+        for i, st in enumerate(self.state):
+            if st == "done" and self.sc["apps"][i].get("stop") and i not in self.stopped:
+                out.append(("stop", i))       # the host closes this application while others go on
         for si, s in enumerate(self.sc["streams"]):
             if self.delivered[si] >= len(s["responses"]):
                 continue
             key = tuple(s["key"])
             if key[2] == "create" and self.delivered[si] >= self.issued_pairs.get(key, 0):
                 continue   # a create-role response cannot precede its request
+            gate = s["responses"][self.delivered[si]].get("after_stop")
+            if gate is not None and gate not in self.stopped:
+                continue   # generated for the socket as re-opened after that application was closed
             out.append(("deliver", si))
         return out
 
     def finished(self) -> bool:
         return all(st == "done" for st in self.state) and all(
+            i in self.stopped for i, a in enumerate(self.sc["apps"]) if a.get("stop")) and all(
             self.delivered[si] >= len(s["responses"]) for si, s in enumerate(self.sc["streams"]))
 
     # ---- transitions ------------------------------------------------------------------------------------------
@@ -96,9 +111,11 @@ class Run:
         self.events.append(ch)
         if ch[0] == "step":
             self._advance(ch[1])
+        elif ch[0] == "stop":
+            self._stop(ch[1])
         else:
             self._deliver(ch[1])
-        progress = ch[0] == "deliver" or self.state[ch[1]] != "blocked"
+        progress = ch[0] != "step" or self.state[ch[1]] != "blocked"
         for j in range(len(self.changed)):
             if ch[0] == "step" and j == ch[1] and self.state[j] == "blocked":
                 self.changed[j] = False     # re-polling the same wait is pointless until something else happens
@@ -138,6 +155,20 @@ class Run:
         except Exception as exc:
             raise Violation(f"executor raised {type(exc).__name__}: {str(exc).splitlines()[0][:200]}")
 
+    def _stop(self, i: int) -> None:
+        app = self.sc["apps"][i]["app"]
+        # what the application holds at the moment it is closed is what the end-of-run oracle judges for it
+        self.final_arrays[app] = {a: list(v) for a, v in self.ex._app_arrays[app]._arrays.items()}
+        self.final_units[app] = list(self.ex._qubit_unit_modules[app])
+        self.stopped.add(i)
+        self.stops += 1
+        for rs, purpose in (self.sc["apps"][i].get("remap_on_stop") or []):
+            self.purpose_map[tuple(rs)] = purpose     # the network stack hands out a new purpose id when the socket is re-opened
+        try:
+            hc.drive(self.ex.stop_application(app), self.ex, None)
+        except Exception as exc:
+            raise Violation(f"stopping application {app} raised {type(exc).__name__}: {str(exc).splitlines()[0][:200]}")
+
     def _poll(self):
         if self.ex._pending_epr_responses:
             self.deferred_events += 1
@@ -166,36 +197,40 @@ class Run:
         spec = s["responses"][k]
         self.rid += 1
         rid = 100 + self.rid
+        if self.sc.get("unnumbered"):
+            # a link layer that does not number its responses: two responses of one stream can be equal field by field
+            rid, k = 100 + si, 0
         direction = 0 if key[2] == "create" else 1
+        purpose = self.purpose_map.get((key[0], key[1]), key[1])   # what the stack currently answers for this socket
         if self.issued_pairs.get(key, 0) < self.delivered[si]:
             self.early_arrivals += 1
         ex = self.ex
         if spec["kind"] == "K":
             phys = ex._get_unused_physical_qubit()
             ex.inflight_phys.add(phys)
-            fields = [0, rid, phys, direction, k, key[1], key[0], 1000 + rid, 2000 + rid, spec.get("bell", 0)]
+            fields = [0, rid, phys, direction, k, purpose, key[0], 1000 + rid, 2000 + rid, spec.get("bell", 0)]
             if self.sc.get("qlink10"):
                 import qlink_interface as q1
-                resp = q1.ResCreateAndKeep(create_id=rid, directionality_flag=direction, sequence_number=k, purpose_id=key[1],
+                resp = q1.ResCreateAndKeep(create_id=rid, directionality_flag=direction, sequence_number=k, purpose_id=purpose,
                                            remote_node_id=key[0], goodness=1000 + rid, bell_state=spec.get("bell", 0),
                                            logical_qubit_id=phys, time_of_goodness=2000 + rid)
             else:
                 resp = ql.LinkLayerOKTypeK(type=ql.ReturnType.OK_K, create_id=rid, logical_qubit_id=phys, directionality_flag=direction,
-                                           sequence_number=k, purpose_id=key[1], remote_node_id=key[0], goodness=1000 + rid,
+                                           sequence_number=k, purpose_id=purpose, remote_node_id=key[0], goodness=1000 + rid,
                                            goodness_time=2000 + rid, bell_state=ql.BellState(spec.get("bell", 0)))
             self.rlink.arrive(key, {"rid": rid, "kind": "K", "phys": phys, "fields": fields})
         else:
-            fields = [1, rid, spec.get("outcome", 0), spec.get("basis", 0), direction, k, key[1], key[0], 1000 + rid, spec.get("bell", 0)]
+            fields = [1, rid, spec.get("outcome", 0), spec.get("basis", 0), direction, k, purpose, key[0], 1000 + rid, spec.get("bell", 0)]
             if self.sc.get("qlink10"):
                 import qlink_interface as q1
-                resp = q1.ResMeasureDirectly(create_id=rid, directionality_flag=direction, sequence_number=k, purpose_id=key[1],
+                resp = q1.ResMeasureDirectly(create_id=rid, directionality_flag=direction, sequence_number=k, purpose_id=purpose,
                                              remote_node_id=key[0], goodness=1000 + rid, bell_state=spec.get("bell", 0),
                                              measurement_outcome=spec.get("outcome", 0),
                                              measurement_basis=q1.MeasurementBasis(spec.get("basis", 0)))
             else:
                 resp = ql.LinkLayerOKTypeM(type=ql.ReturnType.OK_M, create_id=rid, measurement_outcome=spec.get("outcome", 0),
                                            measurement_basis=ql.Basis(spec.get("basis", 0)), directionality_flag=direction,
-                                           sequence_number=k, purpose_id=key[1], remote_node_id=key[0], goodness=1000 + rid,
+                                           sequence_number=k, purpose_id=purpose, remote_node_id=key[0], goodness=1000 + rid,
                                            bell_state=ql.BellState(spec.get("bell", 0)))
             self.rlink.arrive(key, {"rid": rid, "kind": "M", "phys": None, "fields": fields})
         try:
@@ -241,10 +276,10 @@ class Run:
             raise Violation(f"responses consumed differently from the matching rule: unexpected {extra[:3]} missing {missing[:3]} "
                             f"(response id, result array, app, pair index)")
         ids = [g[0] for g in got]
-        if len(set(ids)) != len(ids):
+        if len(set(ids)) != len(ids) and not self.sc.get("unnumbered"):
             raise Violation(f"a response was consumed twice: {ids}")
         for (app, addr), vals in arrays.items():
-            have = ex._app_arrays[app]._arrays.get(addr)
+            have = self.final_arrays[app].get(addr) if app in self.final_arrays else ex._app_arrays[app]._arrays.get(addr)
             if self.sc.get("array_prefix_only") and have is not None:
                 # result arrays deliberately larger than number * 10: the rest must stay undefined
                 if have[len(vals):] != [None] * (len(have) - len(vals)):
@@ -254,7 +289,7 @@ class Run:
                 raise Violation(f"result array @{addr} of app {app} = {have} but the matching rule gives {vals}")
         freed = {tuple(x) for x in self.sc.get("freed", [])}
         for (app, v), phys in qmap.items():
-            um = ex._qubit_unit_modules[app]
+            um = self.final_units[app] if app in self.final_units else ex._qubit_unit_modules[app]
             if (app, v) in freed:
                 continue
             if um[v] != phys:
